@@ -60,6 +60,8 @@ def run(tier):
     S.expect_unsat('equals-reflexive', znot(eq_aa), 'type identity is reflexive', 1, [])
     n_pairs = 600 if tier == 'quick' else 5000
     S.validate([], vtcheck.PUB_BINARY, 0, n_pairs)
+    import resolvercheck
+    resolvercheck.run(S, tier)
     return finish(S, tier, ['match_type_of_operands / put_symbol / use_function on real expressions: only the relations they consult are decided here'])
 
 
